@@ -81,6 +81,9 @@ func c12Life(c *mon.Ctx, r *mon.Rand, force string) {
 			nameLen = r.Range(100, 600)
 		}
 		id.Name += genBytes(r, nameLen)
+		if r.Chance(1, 40) {
+			id.Name = ""
+		}
 		nt := r.Intn(5)
 		if traffic == "many-tags" {
 			nt = r.Range(6, 8)
@@ -117,8 +120,9 @@ func c12Life(c *mon.Ctx, r *mon.Rand, force string) {
 		idents[i] = id
 	}
 	nCalls := r.Range(50, 3000)
+	concAlloc := r.Bool()
 	desc := map[string]interface{}{"protocol": protoName(proto), "queue": opts.MaxQueueSize, "max_packet": opts.MaxPacketSizeBytes, "common_tags": nCommon, "include_host": opts.IncludeHost, "internal_tags": len(opts.InternalTags),
-		"traffic": traffic, "identities": nIdents, "calls": nCalls, "bucket_tag_names": fmt.Sprintf("%q/%q", opts.HistogramBucketIDName, opts.HistogramBucketName)}
+		"traffic": traffic, "concurrent_allocation": concAlloc, "identities": nIdents, "calls": nCalls, "bucket_tag_names": fmt.Sprintf("%q/%q", opts.HistogramBucketIDName, opts.HistogramBucketName)}
 	c.LogCase(fmt.Sprint(desc))
 	stopWatch := c.Watchdog(300*time.Second, "m3-call-or-close-does-not-return", desc)
 	defer stopWatch()
@@ -178,8 +182,23 @@ func c12Life(c *mon.Ctx, r *mon.Rand, force string) {
 	var calls []m3Call
 	c.Guard("panic-m3", func() interface{} { return desc }, func() {
 		hs := make([]*m3Handle, len(idents))
-		for i := range idents {
-			hs[i] = allocM3(env.Rep, &idents[i])
+		if concAlloc {
+			// allocation (and with it the size measurement) from several goroutines
+			var wg sync.WaitGroup
+			for g := 0; g < 4; g++ {
+				wg.Add(1)
+				go func(g int) {
+					defer wg.Done()
+					for i := g; i < len(idents); i += 4 {
+						hs[i] = allocM3(env.Rep, &idents[i])
+					}
+				}(g)
+			}
+			wg.Wait()
+		} else {
+			for i := range idents {
+				hs[i] = allocM3(env.Rep, &idents[i])
+			}
 		}
 		for i := 0; i < nCalls; i++ {
 			if r.Chance(1, 60) {
